@@ -227,6 +227,84 @@ class Isolation(Stage):
         return res
 
 
+def many_tags_specs(n, extra_every, t0=1000):
+    """n connections, each with a tag of its own (libwayland-style decimal tags), one line each and a second line for every
+    `extra_every`-th; the second lines come after all first lines"""
+    specs = []
+    t = t0
+    tag = lambda k: str(4096 + 16 * k)
+    for k in range(n):
+        t += 100
+        specs.append(dict(conn=tag(k), t_us=t, sent=(k % 3 != 0), iface='wl_display', id=1, name='get_registry', args=[['new', 'wl_registry', 2]]))
+    for k in range(0, n, max(1, extra_every)):
+        t += 100
+        specs.append(dict(conn=tag(k), t_us=t, sent=(k % 3 != 0), iface='wl_display', id=1, name='sync', args=[['new', 'wl_callback', 3]]))
+    return specs
+
+
+class ManyTags(Stage):
+    """a log with a great many connection tags (1001..1040, once 18 300: names need three and four letters; the 1000th is ALL):
+    every tag is a connection of its own with the next name, announced once, closed once at the end, holding exactly its own
+    lines; `connection NAME` + `list` shows that connection only"""
+    name = 'many-tags'
+
+    def examples(self, tier):
+        return 4 if tier == 'quick' else 14 * 3
+
+    def gen(self, d, tier):
+        n = d.choice([d.int(1001, 1040), d.int(1001, 1040), d.int(703, 760), 18300])
+        return dict(n=n, extra_every=d.choice([1, 7, 97]), picks=sorted({0, n - 1, 999 % n, 1000 % n} | {d.int(0, n - 1) for _ in range(6)}))
+
+    def execute(self, case):
+        res = Result()
+        res.evals = 0
+        n = case['n']
+        specs = many_tags_specs(n, case['extra_every'])
+        s = session.run_history(specs, 'new')
+        out = s.out.buffer.split('\n')
+        names = [c.name() for c in s.cm.connections()]
+        want = [model.letters(k, caps=True) for k in range(n)]
+        if names != want:
+            k = next((i for i, (a, b) in enumerate(zip(names, want)) if a != b), min(len(names), len(want)))
+            res.bad('connection-names', '%d connections for %d tags; first difference at #%d: %r, expected %r' % (len(names), n, k, names[k:k + 2], want[k:k + 2]))
+            return res
+        news = [session.NEW_LINE.match(l).group(2) for l in out if session.NEW_LINE.match(l)]
+        closed = [session.CLOSED_LINE.match(l).group(2) for l in out if session.CLOSED_LINE.match(l)]
+        if news != want:
+            res.bad('new-notices', '%d New notices for %d tags (%r...)' % (len(news), n, news[:3]))
+        if sorted(closed) != sorted(want):
+            res.bad('closed-notices', '%d Closed notices for %d connections' % (len(closed), n))
+        counts = {}
+        for m in s.messages():
+            c = m.obj.connection.name() if m.obj.connection is not None else None
+            counts[c] = counts.get(c, 0) + 1
+        exp = {}
+        for m in specs:
+            nm = want[(int(m['conn']) - 4096) // 16]
+            exp[nm] = exp.get(nm, 0) + 1
+        if counts != exp:
+            bad = [k for k in exp if counts.get(k) != exp[k]][:3]
+            res.bad('messages-per-connection', 'differs for %r: %r, expected %r' % (bad, [counts.get(k) for k in bad], [exp[k] for k in bad]))
+        res.evals += len(specs)
+        line = re.compile(r'^\s*-?\d+\.\d+ (\w+): ', re.M)
+        for k in case['picks']:
+            nm = want[k]
+            n0 = len(s.out.buffer)
+            s.ctl.process_command('connection ' + nm)
+            s.ctl.process_command('list')
+            got = {}
+            for lab in line.findall(s.out.buffer[n0:]):
+                got[lab] = got.get(lab, 0) + 1
+            if got != {nm: exp[nm]}:
+                res.bad('connection-command-selects-wrong', '`connection %s` then `list` shows %r, that connection has %d messages (%d connections)' % (nm, got, exp[nm], n))
+                break
+            res.evals += 1
+        res.nontrivial = True
+        res.label('connections>=18279' if n >= 18279 else 'connections>=1001' if n >= 1001 else 'connections>=703')
+        res.sample = dict(case)
+        return res
+
+
 # ------------------------------------------------------------------------------------------------
 # (b) the connection-id sink interface: open / message / close / re-open
 
@@ -410,7 +488,7 @@ class C04(Prop):
             'consecutive lines / a re-open after close; distinct by SHA-1 of the case.')
     assumptions = ['projections exclude time-valued text (relative to the global first message: C16)',
                    'the role is asserted against the model only when the first message is get_registry; otherwise alone-vs-interleaved only']
-    stages = [Isolation(), Sink()]
+    stages = [Isolation(), ManyTags(), Sink()]
 
 
 PROP = C04()
